@@ -14,7 +14,7 @@ func init() {
 		Run: func(p *Prog, tier string) []*RuleResult {
 			return []*RuleResult{
 				runtimeNamesRule(p, "C02/R1 runtime-names", map[string]bool{"linker": true, "bundler": true, "graph": true, "js_printer": true}, 10),
-				c02LoadOnce(p), c02LoaderDispatch(p), c02CycleCut(p), c02AwaitFollowsCallee(p), c02WrapperCallAwaitable(p),
+				c02LoadOnce(p), c02LoaderDispatch(p), c02CycleCut(p), c02AwaitFollowsCallee(p), c02WrapperCallAwaitable(p), c02RequireOfTLADiagnosed(p),
 				renamed(c09Frozen(p), "C02/R5 shared-ast-immutability", "modules are linked from parsed ASTs (and lazily exported JSON/CSS values) that the caches share between builds and between the parallel per-entry-point links: a link-time store into AST memory that was not cloned for this link makes the next link bundle a corrupted module (same analysis as C09/R2)"),
 			}
 		},
